@@ -39,8 +39,14 @@ def order_sensitive_docs(rng, n, idx):
     docs = [ro_txt]
     live = list(names)
     fresh = gen.Ids('O%d.' % idx)
+    # in 40% of the lists a roDelete sits somewhere in the middle: what follows it is refused
+    end_at = rng.randrange(1, n) if (n > 2 and rng.random() < 0.4) else None
     for k, v in enumerate(ids_numeric[1:]):
         c = rng.random()
+        if end_at == k + 1:
+            docs.append(B.msg_doc('roDelete', 5).replace('<messageID>5</messageID>',
+                                                          '<messageID>%s</messageID>' % mid(v)))
+            continue
         if c < 0.3:
             new = fresh.new()
             d = B.msg_doc('roStoryAppend', 5, carried=[gen.simple_story(new, 1)])
